@@ -429,7 +429,19 @@ def o6(prog, rep):
         at = [(op, L, R) for cond, truth in gp.edge_conds(dm[0]) for op, L, R, _, _ in cond_atoms(cond, truth)]
         ok = any(op == "<=" and L[0] == "call" and L[1] == "tvcmp" and R == ("c", 0) and fieldname(L[2][1]) == "tv" and L[3] == ("v", gp.params[1]["name"], gp.params[1]["id"]) for op, L, R in at)
     nn = [r for r in gp.returns() if norm(r.kid(0)) != ("c", 0)]
-    ok = ok and len(nn) == 1 and gp.dominates(dm[0], nn[0])
+
+    def after_release(r):
+        """the return comes after the release, or hands back a variable that holds anything but NULL only after it"""
+        if gp.dominates(dm[0], r):
+            return True
+        v = norm(r.kid(0))
+        if v[0] != "v":
+            return False
+        sets = [e for e in gp.all_elems() if e.is_assign and e.op == "=" and norm(e.kid(0)) == v and norm(e.kid(1)) != ("c", 0)]
+        inits = [d for e in gp.all_elems() if e.cls == "DeclStmt" for d in (e.decls or []) if isinstance(d, dict) and len(v) > 2 and d.get("id") == v[2] and d.get("init")
+                 and norm(gp.elem(d["init"])) != ("c", 0)]
+        return bool(sets) and not inits and all(gp.dominates(dm[0], e) for e in sets)
+    ok = ok and len(nn) == 1 and after_release(nn[0])
     rep.check(ok, "O6-notearly", "timerqueue_getptr releases the minimum only when tvcmp(min, now) <= 0", gp.loc, "", function=gp.name, construct="getptr-edge")
     # gettimeout
     gt = ut.func("gettimeout")
